@@ -56,6 +56,9 @@ func genH(t *rapid.T) (HCase, *env.Env) {
 	if tg.Layout != nil && tg.Layout.AvgSegMS() < 1000 {
 		cfg.Extra = []string{"mup_1"}
 	}
+	if rapid.IntRange(0, 5).Draw(t, "timeoffset?") == 0 {
+		cfg.Extra = append(cfg.Extra, "timeoffset_"+rapid.SampledFrom([]string{"1", "7.5", "-3", "100"}).Draw(t, "toff"))
+	}
 	c := HCase{Target: tg, MPD: rapid.SampledFrom(names).Draw(t, "mpd"), Cfg: cfg, TTL: rapid.SampledFrom([]int{1, 10, 30, 60, 600}).Draw(t, "ttl")}
 	if tg.Layout == nil && rapid.IntRange(0, 3).Draw(t, "periods?") == 0 {
 		var ok []int
@@ -118,6 +121,10 @@ func checkH(c HCase, e *env.Env) (*hx.Violation, hinfo) {
 		return e.Srv.Get(u), u
 	}
 	r1, u1 := get(c.T1)
+	if r1.Code == 425 && strings.Contains(strings.Join(parts, "/"), "timeoffset_-") {
+		inf.status = 425 // a negative time offset moves the instant before availabilityStartTime: no MPD yet, nothing to patch
+		return nil, inf
+	}
 	if r1.Code != 200 {
 		return hx.V("mpd-status", "%s -> %v", u1, r1), inf
 	}
@@ -203,7 +210,15 @@ func checkH(c HCase, e *env.Env) (*hx.Violation, hinfo) {
 	}
 	// defect model KF-C11-base-mismatch: the handler diffs against the MPD it regenerates at publishTime+1 ms,
 	// which is not the document of t1 when the window start moved in between
-	ro, _ := get(p1 + 1)
+	offMS := int64(0) // publishTime is on the clock shifted by timeoffset_; nowMS is not
+	for _, pt := range parts {
+		if strings.HasPrefix(pt, "timeoffset_") {
+			if f, err := strconv.ParseFloat(strings.TrimPrefix(pt, "timeoffset_"), 64); err == nil {
+				offMS = int64(f * 1000)
+			}
+		}
+	}
+	ro, _ := get(p1 + 1 - offMS)
 	if ro.Code == 200 {
 		if do, err := xmlpatch.Parse(ro.Body); err == nil && do.Canon() != d1.Canon() {
 			if g2, _, e2 := xmlpatch.Apply(do, pd); e2 == nil && g2.Canon() == d2.Canon() {
